@@ -257,7 +257,7 @@ impl Scenario for C19 {
     fn assumptions() -> Vec<&'static str> {
         vec![
             "strip_pgp_signature takes &str, so a delivery schedule collapses to the received prefix; cuts are enumerated at every char boundary of every message",
-            "a bare CR is not in the line alphabet (str::lines strips it; the property's quantifier does not list it): domain decision recorded in DESIGN.md",
+            "a CR inside a line is not in the line alphabet; a payload line may end in CR (CR LF line ends), and that case is the listed known finding: str::lines strips the CR from the returned payload",
             "the reference state machine is written from the property text and is the oracle for which error matches which cut",
         ]
     }
